@@ -44,6 +44,39 @@ CFG = {
         "Swat4.C13.C13_retry_after_concurrent_commit",
         "Swat4.C13.C13_failure_after_concurrent_commit",
         "Swat4.C13.C13_success_after_concurrent_commit",
+        # hmono discharged (reviewer W1): versions only grow under every repository call / use case / USys run
+        "Swat4.C13.exec_version_mono",
+        "Swat4.C13.exec_keeps_row",
+        "Swat4.C13.usecases_callbacks_stable",
+        "Swat4.C13.prog_version_mono",
+        "Swat4.VerMono.exec_rowLe",
+        "Swat4.VerMono.run_mono",
+        "Swat4.VerMono.usys_run_mono",
+        "Swat4.C13.probe_retry_race_any",
+        "Swat4.C13.probe_failure_race_any",
+        "Swat4.C13.probe_success_race_any",
+        # every placement of the concurrent activity, any activity of the others
+        "Swat4.C13Run.probe_retry_slots",
+        "Swat4.C13Run.probe_failure_slots",
+        "Swat4.C13Run.probe_success_slots",
+        "Swat4.C13.probe_retry_race_at",
+        "Swat4.C13.probe_failure_race_others",
+        "Swat4.C13.probe_success_race_at",
+        "Swat4.C13.raceRun_at_call",
+        "Swat4.C13.others_usecase",
+        "Swat4.C13Run.others_usys",
+        # bridge to the system model the driver replays
+        "Swat4.C13Run.usys_retry_bridge",
+        "Swat4.C13Run.usys_probe_retry_any",
+        "Swat4.C13Run.usys_two_clients_retry",
+        "Swat4.C13Run.usys_two_clients_retry_iff",
+        "Swat4.C13.usys_matches_raceRun_no_tick",
+        # delay table: scope
+        "Swat4.C13.expFloor_in_scope",
+        "Swat4.C13.expFloor_out_of_scope",
+        "Swat4.C13.retry_delay_in_scope",
+        "Swat4.C13.usecases_enqueue_within_budget",
+        "Swat4.C13.queued_within_budget",
     ],
     "shards": (1, 16),
     "nontrivial": _nontrivial,
@@ -61,9 +94,17 @@ CFG = {
         "the source text of `retryDelay := ...` in probeserver.retry, and int64(time.Duration(math.Exp(float64(n)))) / the full delay in ns computed by Go "
         "for n = 0..20; theorem expFloor_matches_go) and, for n <= 5, to the real number e^n by expFloor_brackets_exp (Mathlib bounds on e); "
         "math.Exp is evaluated on the machine that runs the check (amd64/arm64 assembly or pure Go give the same truncated values for these arguments)",
-        "versions are monotone while a record is not removed (hypothesis `hmono` of update_applies_to_latest and of the *_race theorems); remove + re-add restarts "
-        "the counter (ABA), outside the property's quantifier: there the model - and servers.go:143 `existing.Version > svr.Version`, which behaves the same - "
-        "stores the transformation of the STALE copy over the fresh registration (aba_overwrites_fresh_registration, aba_witness)",
+        "versions are monotone while a record is not removed: formerly the hypothesis `hmono` of update_applies_to_latest and of the *_race theorems, now a theorem "
+        "(exec_version_mono: every repository call of the model whose conflict callback leaves address and version alone - usecases_callbacks_stable: all of them - "
+        "leaves a stored row unchanged or with a strictly larger version; probe_*_race_any / _at / usys_probe_retry_any have no version hypothesis); what remains an "
+        "assumption is its scope: remove + re-add restarts the counter (ABA), outside the property's quantifier: there the model - and servers.go:143 "
+        "`existing.Version > svr.Version`, which behaves the same - stores the transformation of the STALE copy over the fresh registration "
+        "(aba_overwrites_fresh_registration, aba_witness); the multi-call theorems therefore quantify over activities without Remove (VerMono.ProgStable, Others)",
+        "retry budgets above 20 are outside the model (expFloor returns 0 there; the driver reports such a case as unmodelled): expFloor_in_scope / expFloor_out_of_scope; "
+        "the configured retry maxima are >= 0 (hypothesis of usecases_enqueue_within_budget)",
+        "the Prog-level race histories (raceRun / raceRunL) and the system model the driver replays (USys) agree: usys_retry_bridge (always, with Get and the clock read "
+        "at the same clock value) and usys_two_clients_retry_iff (with the history of probe_retry_race exactly when no tick separates the calls) - for the retry "
+        "branch; the success / final-failure branches have the Prog-level placement theorems (probe_success_race_at, probe_failure_race_others) only",
         "run-level theorems assume the store invariant that a record is stored under its own address key (`haddr`)",
     ],
     "trusted_base": COMMON_TRUSTED,
